@@ -355,7 +355,15 @@ def run_lines(lines, rep, seed, n_inst):
             if not e["sites"]:
                 continue
             programs += 1
-            checked += ck.entry(e, doc, ident)
+            try:
+                checked += ck.entry(e, doc, ident)
+            except Exception as ex:  # noqa: BLE001 - the validator library's own errors included
+                if dangling:
+                    # the document has references into nowhere (already reported above):
+                    # validators cannot work with it
+                    rep.inconclusive("entry skipped: the published document has unresolvable references")
+                else:
+                    rep.inconclusive("oracle error on one entry: %s" % type(ex).__name__)
             for f in line.get("features", []):
                 rep.count("dyn_feature." + f)
     rep.extra["programs"] = rep.extra.get("programs", 0) + programs
